@@ -726,10 +726,14 @@ def fdepsd(
 
         Gmax = np.sqrt(np.vstack((G4, G8, G12)) * (Q * lnN0) / (4 * pi * freq))
 
-        # for output, scale the damage indicators:
+        # for output, scale the damage indicators and the variances
+        # such that var_test ** (b/2) * di_test = di_sig:
         Dt4 *= 4  # 2 ** (b/2)
         Dt8 *= 16
         Dt12 *= 64
+        sig2_4 = sig2_4 / 2
+        sig2_8 = sig2_8 / 2
+        sig2_12 = sig2_12 / 2
 
     # assemble outputs:
     columns = ["G1", "G2", "G4", "G8", "G12"]
